@@ -35,3 +35,228 @@ pub fn numeral(v: u128, r: u32, out: &mut [u8; 128]) -> usize {
     }
     n
 }
+
+/// Outcome of the reference left-to-right integer scanner (C04).
+#[derive(Clone, Copy, PartialEq, Eq, Debug)]
+pub enum Scan {
+    /// (negative, magnitude, consumed)
+    Ok(bool, u128, usize),
+    Empty(usize),
+    InvalidDigit(usize),
+    Overflow(usize),
+    Underflow(usize),
+}
+
+/// Reference scanner: `[+-]digits`, '-' only when `signed`; `max_pos` = T::MAX, `max_neg` = |T::MIN| (0 if unsigned).
+/// `partial`: stop at the first non-digit instead of reporting InvalidDigit.
+pub fn scan_int(b: &[u8], radix: u32, signed: bool, max_pos: u128, max_neg: u128, partial: bool) -> Scan {
+    let mut i = 0usize;
+    let mut neg = false;
+    if i < b.len() && b[i] == b'+' {
+        i += 1;
+    } else if i < b.len() && b[i] == b'-' && signed {
+        neg = true;
+        i += 1;
+    }
+    if i == b.len() {
+        return Scan::Empty(i);
+    }
+    let limit = if neg { max_neg } else { max_pos };
+    let mut v: u128 = 0;
+    while i < b.len() {
+        let d = match digit_val(b[i], radix) {
+            Some(d) => d as u128,
+            None => {
+                return if partial { Scan::Ok(neg, v, i) } else { Scan::InvalidDigit(i) };
+            },
+        };
+        let nv = match v.checked_mul(radix as u128).and_then(|x| x.checked_add(d)) {
+            Some(x) if x <= limit => x,
+            _ => return if neg { Scan::Underflow(i) } else { Scan::Overflow(i) },
+        };
+        v = nv;
+        i += 1;
+    }
+    Scan::Ok(neg, v, i)
+}
+
+
+/// Same scanner with a u64 accumulator (cheaper to bit-blast); valid when max_pos, max_neg < 2^63 / radix.
+pub fn scan_int64(b: &[u8], radix: u32, signed: bool, max_pos: u64, max_neg: u64, partial: bool) -> Scan {
+    let mut i = 0usize;
+    let mut neg = false;
+    if i < b.len() && b[i] == b'+' {
+        i += 1;
+    } else if i < b.len() && b[i] == b'-' && signed {
+        neg = true;
+        i += 1;
+    }
+    if i == b.len() {
+        return Scan::Empty(i);
+    }
+    let limit = if neg { max_neg } else { max_pos };
+    let mut v: u64 = 0;
+    while i < b.len() {
+        let d = match digit_val(b[i], radix) {
+            Some(d) => d as u64,
+            None => {
+                return if partial { Scan::Ok(neg, v as u128, i) } else { Scan::InvalidDigit(i) };
+            },
+        };
+        // v <= limit < 2^57 so v * radix + d cannot wrap a u64
+        let nv = v * radix as u64 + d;
+        if nv > limit {
+            return if neg { Scan::Underflow(i) } else { Scan::Overflow(i) };
+        }
+        v = nv;
+        i += 1;
+    }
+    Scan::Ok(neg, v as u128, i)
+}
+
+// ---------------------------------------------------------------------------
+// C18: documented validity of a packed number format, written from the
+// documentation (bit positions are the documented layout).
+
+pub const F_KNOWN_FLAGS: u128 = 0x3ffff | (0x1fff << 32);
+pub const F_SEP_FLAGS: u128 = 0x1fff << 32;
+
+pub fn f_sep(f: u128) -> u8 { (f >> 64) as u8 }
+pub fn f_prefix(f: u128) -> u8 { (f >> 88) as u8 }
+pub fn f_suffix(f: u128) -> u8 { (f >> 96) as u8 }
+pub fn f_mradix(f: u128) -> u32 { ((f >> 104) & 0xff) as u32 }
+pub fn f_ebase(f: u128) -> u32 { let r = ((f >> 112) & 0xff) as u32; if r == 0 { f_mradix(f) } else { r } }
+pub fn f_eradix(f: u128) -> u32 { let r = ((f >> 120) & 0xff) as u32; if r == 0 { f_mradix(f) } else { r } }
+fn bit(f: u128, i: u32) -> bool { (f >> i) & 1 == 1 }
+
+pub fn radix_supported(r: u32) -> bool {
+    if cfg!(feature = "radix") { r >= 2 && r <= 36 }
+    else if cfg!(feature = "power-of-two") { r == 2 || r == 4 || r == 8 || r == 10 || r == 16 || r == 32 }
+    else { r == 10 }
+}
+
+/// punctuation character (0 = unset): printable/whitespace ASCII, not a sign, not a digit of the widest digit radix
+fn punct_ok(f: u128, c: u8) -> bool {
+    if c == 0 { return true; }
+    let ascii = (c >= 0x09 && c <= 0x0d) || (c >= 0x20 && c < 0x7f);
+    let r = if f_mradix(f) > f_eradix(f) { f_mradix(f) } else { f_eradix(f) };
+    ascii && c != b'+' && c != b'-' && digit_val(c, r).is_none()
+}
+
+pub fn spec_format_valid(f: u128) -> bool {
+    if !(radix_supported(f_mradix(f)) && radix_supported(f_ebase(f)) && radix_supported(f_eradix(f))) {
+        return false;
+    }
+    let (s, p, x) = (f_sep(f), f_prefix(f), f_suffix(f));
+    if cfg!(feature = "format") {
+        if !punct_ok(f, s) { return false; }
+        if cfg!(feature = "power-of-two") {
+            if !punct_ok(f, p) || !punct_ok(f, x) { return false; }
+        } else if p != 0 || x != 0 {
+            return false;
+        }
+        // distinct (among the ones that are set; a lone one is always fine)
+        let set = (s != 0) as u8 + (p != 0) as u8 + (x != 0) as u8;
+        if set >= 2 && (s == p || s == x || p == x) { return false; }
+        // contradictory pairs
+        if bit(f, 6) && bit(f, 14) { return false; }   // no exponent notation & required exponent notation
+        if bit(f, 4) && bit(f, 5) { return false; }    // no positive mantissa sign & required mantissa sign
+        if bit(f, 7) && bit(f, 8) { return false; }    // no positive exponent sign & required exponent sign
+        if bit(f, 10) && bit(f, 11) { return false; }  // no special & case-sensitive special
+        if bit(f, 10) && bit(f, 44) { return false; }  // no special & special digit separator
+        // consecutive only together with a position flag, per component
+        let int_pos = bit(f, 32) || bit(f, 35) || bit(f, 38);
+        let frac_pos = bit(f, 33) || bit(f, 36) || bit(f, 39);
+        let exp_pos = bit(f, 34) || bit(f, 37) || bit(f, 40);
+        if bit(f, 41) && !int_pos { return false; }
+        if bit(f, 42) && !frac_pos { return false; }
+        if bit(f, 43) && !exp_pos { return false; }
+        true
+    } else {
+        // without `format` only the default syntax exists
+        s == 0 && p == 0 && x == 0 && (f & F_KNOWN_FLAGS) == ((1 << 2) | (1 << 3))
+    }
+}
+
+/// What `rebuild(f).build_unchecked()` must return: the documented fields of f, unknown bits dropped,
+/// the separator character dropped when no separator flag is set.
+pub fn format_norm(f: u128) -> u128 {
+    // exponent base / exponent radix are stored resolved (0 = "same as the mantissa radix")
+    let mut g = f & (F_KNOWN_FLAGS | (0xff << 88) | (0xff << 96) | (0xff << 104));
+    g |= (f_ebase(f) as u128) << 112;
+    g |= (f_eradix(f) as u128) << 120;
+    if f & F_SEP_FLAGS != 0 { g |= f & (0xff << 64); }
+    g
+}
+
+// ---------------------------------------------------------------------------
+// Reference float tokenizer for separator-free input (C10/C11/C12), flags read from the documented bit layout.
+
+#[derive(Clone, Copy, Debug, PartialEq, Eq)]
+pub struct Tok {
+    pub mantissa: u64,     // value of all integer+fraction digits (wrapping; exact while <= 19 decimal digits)
+    pub exponent: i64,     // explicit exponent - fraction digits (in units of the exponent base)
+    pub n_int: usize,
+    pub n_frac: usize,
+    pub has_dot: bool,
+    pub has_exp: bool,
+    pub end: usize,        // bytes consumed (relative to the start of `b`)
+}
+
+fn eq_ci(a: u8, b: u8) -> bool { a.to_ascii_lowercase() == b.to_ascii_lowercase() }
+
+/// `b` starts AFTER the mantissa sign (the sign is handled by the caller, as in the real entry points).
+/// Returns None when the documented grammar for `f` does not derive a (prefix of) `b`.
+pub fn tok_ref(b: &[u8], f: u128, dp: u8, ec: u8) -> Option<Tok> {
+    let radix = f_mradix(f);
+    let ebase = f_ebase(f);
+    let eradix = f_eradix(f);
+    let fmt = cfg!(feature = "format");
+    let flag = |i: u32| fmt && bit(f, i);
+    let req_int = flag(0); let req_frac = flag(1); let req_expd = bit(f, 2); let req_mant = bit(f, 3);
+    let no_exp = flag(6); let no_pos_exp = flag(7); let req_exp_sign = flag(8); let no_exp_wo_frac = flag(9);
+    let no_float_lz = flag(13); let req_exp = flag(14); let cs_exp = flag(15);
+    let mut i = 0usize;
+    let mut m: u64 = 0;
+    let mut n_int = 0usize;
+    while i < b.len() {
+        match digit_val(b[i], radix) { Some(d) => { m = m.wrapping_mul(radix as u64).wrapping_add(d as u64); n_int += 1; i += 1; }, None => break }
+    }
+    if req_int && n_int == 0 { return None; }
+    if no_float_lz && n_int > 1 && b[0] == b'0' { return None; }
+    let mut n_frac = 0usize;
+    let has_dot = i < b.len() && b[i] == dp;
+    if has_dot {
+        i += 1;
+        while i < b.len() {
+            match digit_val(b[i], radix) { Some(d) => { m = m.wrapping_mul(radix as u64).wrapping_add(d as u64); n_frac += 1; i += 1; }, None => break }
+        }
+        if req_frac && n_frac == 0 { return None; }
+    }
+    if req_mant && n_int + n_frac == 0 { return None; }
+    let has_exp = i < b.len() && (if cs_exp { b[i] == ec } else { eq_ci(b[i], ec) });
+    let mut e: i64 = 0;
+    if has_exp {
+        if no_exp { return None; }
+        if no_exp_wo_frac && !has_dot { return None; }
+        i += 1;
+        let mut eneg = false;
+        if i < b.len() && b[i] == b'+' { if no_pos_exp { return None; } i += 1; }
+        else if i < b.len() && b[i] == b'-' { eneg = true; i += 1; }
+        else if req_exp_sign { return None; }
+        let mut ne = 0usize;
+        while i < b.len() {
+            match digit_val(b[i], eradix) { Some(d) => { if e < 0x10000000 { e = e * eradix as i64 + d as i64; } ne += 1; i += 1; }, None => break }
+        }
+        if req_expd && ne == 0 { return None; }
+        if eneg { e = -e; }
+    } else if req_exp {
+        return None;
+    }
+    // implicit exponent: one mantissa digit is log2(radix)/log2(base) exponent units when the bases differ
+    let scale: i64 = if radix == ebase { 1 } else { (ilog2(radix) / ilog2(ebase)) as i64 };
+    let exponent = e - (n_frac as i64) * scale;
+    Some(Tok { mantissa: m, exponent, n_int, n_frac, has_dot, has_exp, end: i })
+}
+
+pub fn ilog2(x: u32) -> u32 { 31 - x.leading_zeros() }
